@@ -350,7 +350,17 @@ func (s *gatedStore) RemoveFromList(key string, value any) error {
 
 var listenAddrs = []string{"0.0.0.0:9001", "127.0.0.1:9002", "0.0.0.0:65535"}
 var badListenAddr = "no-port-here"
-var targetAddrs = []string{"tcp://192.168.100.10:8888", "udp://10.0.0.7:53"}
+
+// target-address shapes a code can be generated with (IPv4, hostname, IPv6 literal with brackets, zoned IPv6, unusual ports)
+// and the host / port / protocol the mapping made from the code must carry — the address itself byte for byte
+var targetAddrs = []string{"tcp://192.168.100.10:8888", "udp://10.0.0.7:53", "tcp://[fd00::10]:3306", "tcp://[fe80::1%25eth0]:8080",
+	"tcp://db-1.internal.example:65535", "udp://10.0.0.7:1", "tcp://[::1]:1"}
+var targetParts = []struct {
+	host  string
+	port  int
+	proto string
+}{{"192.168.100.10", 8888, "tcp"}, {"10.0.0.7", 53, "udp"}, {"fd00::10", 3306, "tcp"}, {"fe80::1%eth0", 8080, "tcp"},
+	{"db-1.internal.example", 65535, "tcp"}, {"10.0.0.7", 1, "udp"}, {"::1", 1, "tcp"}}
 
 type thrIn struct {
 	// "act" | "rev" | "tick" | "list" (the code's owner lists its codes) | "stall" (listen = seconds) |
@@ -1151,6 +1161,10 @@ func runSched(c caseIn) *caseOut {
 		if m.TargetClientID != c.Target || m.TargetAddress != targetAddrs[c.TAddr] || m.ListenClientID != t.Listen || m.ListenAddress != want {
 			add("mapping-shape", "mapping of caller %d: target %d %q listen %d %q, expected target %d %q listen %d %q", o,
 				m.TargetClientID, m.TargetAddress, m.ListenClientID, m.ListenAddress, c.Target, targetAddrs[c.TAddr], t.Listen, want)
+		}
+		if tp := targetParts[c.TAddr]; m.TargetHost != tp.host || m.TargetPort != tp.port || string(m.Protocol) != tp.proto {
+			add("mapping-shape", "mapping of caller %d made from a code for %q: target host %q port %d protocol %q, expected %q %d %q", o,
+				targetAddrs[c.TAddr], m.TargetHost, m.TargetPort, string(m.Protocol), tp.host, tp.port, tp.proto)
 		}
 	}
 	// dead code: an activation whose FIRST storage action came after the code was dead must not succeed
